@@ -819,7 +819,7 @@ HS_PROPS = {"C%02d" % i for i in range(1, 21)}
 WF_PROPS = {"C01", "C03", "C05", "C16"}
 DA_PROPS = {"C02", "C04", "C06", "C08", "C09", "C10", "C13", "C16", "C17"}
 CP_PROPS = {"C20", "C10"}
-TG_PROPS = {"C07", "C12", "C14", "C15", "C16"}
+TG_PROPS = {"C03", "C07", "C12", "C14", "C15", "C16"}
 
 
 def common_rules(model: Model, prop: str, tier: str) -> List[RuleResult]:
